@@ -399,7 +399,9 @@ fn iter_op(st: &mut State, step: &Step, counts: &mut Vec<&'static str>) -> Resul
             let got = it.src.next();
             let want = expect_next(it);
             let g = got.as_ref().map(|t| t.id);
-            vcheck!(g == want, "harness.model", "direct", "direct read {:?} vs model {:?}", g, want);
+            // (the source itself never misbehaves: if it is not where the model says, something
+            // other than the reads made so far has advanced or rewound it - the wrapper)
+            vcheck!(g == want, "iter.source_disturbed", "direct", "reading the source directly gives {:?}, after the reads made so far it should give {:?}: the wrapper has moved the source on its own", g, want);
             if it.wrapper.is_some() {
                 counts.push("probe.direct_use_while_wrapped");
             }
